@@ -75,16 +75,31 @@ def basic(nmax, passes=3):
     return out
 
 
+def late_finalize():
+    """Online schedules whose forward is longer than one Forward of sys.maxsize steps: several
+    next() before a (consistent) finalize inside the last Forward's range."""
+    import sys
+    M = sys.maxsize
+    out = []
+    for cls, passes in (("SingleMemory", 2), ("None", 0)):
+        for j in (2, 3):
+            k = (j - 1) * M + 3
+            c = mkcfg(cls, N=0, passes=passes)
+            c["calls"] = [("next",)] * j + [("fin", k)] + [("next",)] * 7
+            out.append(c)
+    return out
+
+
 def ebox(tier, seed=0):
     """The trace box shared by the executor properties (C01-C04, C08, C09a, C11, C12, C18a)."""
     if tier == "quick":
         out = (multistage(12) + mixed(16) + revolve_family(12, (1, 2, 3, 4), COSTS8)
-               + twolevel(12, 5, 3) + basic(12))
+               + twolevel(12, 5, 3) + basic(12) + late_finalize())
     else:
         rnd = random.Random(seed)
         out = (multistage(26) + mixed(40)
                + revolve_family(30, (1, 2, 3, 4, 6), COSTS12, cds=(0, 1, 2, 3, 5))
-               + twolevel(30, 7, 4) + basic(40))
+               + twolevel(30, 7, 4) + basic(40) + late_finalize())
         for _ in range(60):
             n = rnd.randint(41, 300)
             s = rnd.randint(1, min(n, 40))
